@@ -586,6 +586,10 @@ func (s *JavaFullListener) EnterCreator(ctx *parser.CreatorContext) {
 
 		// an anonymous class, in a method body or in a field initialiser: its body must not end the
 		// class being listed; one nested in another leaves the outer one's scope as it is
+		if identifier != allIdentifiers[0] {
+			// `new a.b.Base() { ... }`: one anonymous class, however many names the created type has
+			continue
+		}
 		creatorDepth++
 		if creatorDepth > 1 {
 			return
